@@ -1117,6 +1117,9 @@ def stream_programs(env, res):
             res["disagreements"].append({"stream": "programs", "case": src, "detail": detail})
         elif status == "inconclusive":
             st["model_inconclusive"] += 1
+        if any(e.startswith("err:Stack_overflow") for e, _ in rec["runs"].values()):
+            st["impl_stack_overflow"] += 1
+            continue
         if "nn" not in rec["runs"] or m is None or "s" not in m["runs"]:
             continue
         ei, vi = rec["runs"]["nn"]
@@ -1150,3 +1153,460 @@ def stream_programs(env, res):
     res["distinct_nontrivial"] += len(nontrivial)
     res["extra"]["programs"] = dict(st, cases=len(cases), nontrivial=len(nontrivial))
     res["samples"].append({"stream": "programs", "case": cases[0][1][:400], "impl": recs.get(cases[0][0], {}).get("runs", {}).get("nn")})
+
+
+# ----------------------------------------------------------------------------------------------
+# stream accept
+
+class TGen:
+    """well-typed programs (every value is used at its run-time type) that lean on what the checker
+    only knows dynamically: parameters, function results, array elements, pop(), and names that are
+    reused for variables of different types in different scopes"""
+
+    NAMES = ["a", "b", "n", "s", "t", "x", "y", "v", "w", "acc", "item", "res"]
+
+    def __init__(self, rng):
+        self.r = rng
+        self.scopes = [[]]        # (name, type, elem type for arrays)
+        self.fns = []             # (name, [param types], return type)
+        self.k = 0
+        self.lines = []
+
+    def fresh(self, reuse=0.5):
+        r = self.r
+        if r.random() < reuse:
+            return r.choice(self.NAMES)
+        self.k += 1
+        return "z%d" % self.k
+
+    def vars(self, ty):
+        seen, out = set(), []
+        for sc in reversed(self.scopes):
+            for v in reversed(sc):
+                if v[0] in seen:
+                    continue
+                seen.add(v[0])
+                if v[1] == ty:
+                    out.append(v)
+        return out
+
+    def lit(self, ty):
+        r = self.r
+        if ty == "num":
+            return r.choice(["0", "1", "2", "3", "10", "2.5", "0.5", "100"])
+        if ty == "str":
+            return r.choice(['"a"', '"bc"', '""', '"Hello"', '"x y"'])
+        if ty == "bool":
+            return r.choice(["true", "false"])
+        if ty == "null":
+            return "null"
+        if ty == "arrnum":
+            return "[%s]" % ", ".join(self.lit("num") for _ in range(r.randint(1, 3)))
+        if ty == "arrstr":
+            return "[%s]" % ", ".join(self.lit("str") for _ in range(r.randint(1, 3)))
+        raise ValueError(ty)
+
+    def atom(self, ty):
+        r = self.r
+        vs = self.vars(ty)
+        if vs and r.random() < 0.7:
+            return r.choice(vs)[0]
+        if ty in ("num", "str") and r.random() < 0.3:
+            arrs = self.vars("arr" + ty)
+            if arrs:
+                return "%s[0]" % r.choice(arrs)[0]
+        if r.random() < 0.25:
+            fs = [f for f in self.fns if f[2] == ty]
+            if fs:
+                f = r.choice(fs)
+                return "%s(%s)" % (f[0], ", ".join(self.expr(t, 0) for t in f[1]))
+        return self.lit(ty)
+
+    def expr(self, ty, d):
+        r = self.r
+        if d <= 0 or r.random() < 0.25:
+            return self.atom(ty)
+        k = r.random()
+        if ty == "num":
+            if k < 0.45:
+                return "%s %s %s" % (self.expr("num", d - 1), r.choice(["add", "minus", "times"]), self.expr("num", d - 1))
+            if k < 0.55:
+                return "%s %s %s" % (self.expr("num", d - 1), r.choice(["divide", "mod"]), r.choice(["2", "3", "0.5"]))
+            if k < 0.65:
+                return "minus %s" % self.opnd("num", d - 1)
+            if k < 0.72:
+                return "(%s)" % self.expr("num", d - 1)
+            if k < 0.80:
+                return "%s.%s()" % (self.recv("num", d - 1), r.choice(["abs", "floor", "ceil", "round", "sqrt"]))
+            if k < 0.88:
+                return "%s.len()" % self.recv(r.choice(["str", "arrnum", "arrstr"]), d - 1)
+            if k < 0.94:
+                return "%s.find(%s)" % (self.recv("str", d - 1), self.expr("str", d - 1))
+            return self.atom("num")
+        if ty == "str":
+            if k < 0.3:
+                a, b = self.opnd("str", d - 1), self.opnd(r.choice(["str", "num"]), d - 1)
+                if r.random() < 0.4:
+                    a, b = b, a
+                return "%s add %s" % (a, b)
+            if k < 0.5:
+                m = r.choice(["trim", "to_uppercase", "to_lowercase"])
+                return "%s.%s()" % (self.recv("str", d - 1), m)
+            if k < 0.6:
+                return "%s.slice(%s, %s)" % (self.recv("str", d - 1), self.expr("num", d - 1), self.expr("num", d - 1))
+            if k < 0.68:
+                return "%s.replace(%s, %s)" % (self.recv("str", d - 1), self.expr("str", d - 1), self.expr("str", d - 1))
+            if k < 0.76:
+                return "to_string(%s)" % self.expr(r.choice(["num", "str", "bool", "null"]), d - 1)
+            if k < 0.82:
+                return "typeof(%s)" % self.expr(r.choice(["num", "str", "bool", "null", "arrnum"]), d - 1)
+            if k < 0.9:
+                return "%s.join(%s)" % (self.recv(r.choice(["arrnum", "arrstr"]), d - 1), self.expr("str", d - 1))
+            vs = self.vars("num") + self.vars("str") + self.vars("bool") + self.vars("null")
+            if vs:
+                return '"<{%s}>"' % r.choice(vs)[0]
+            return self.atom("str")
+        if ty == "bool":
+            if k < 0.4:
+                t = r.choice(["num", "num", "str", "bool"])
+                return "%s %s %s" % (self.opnd(t, d - 1), r.choice(["na", "pass", "small pass"]), self.opnd(t, d - 1))
+            if k < 0.55:
+                return "%s na null" % self.opnd(r.choice(["num", "str", "bool", "null"]), d - 1)
+            if k < 0.62:
+                return "null na %s" % self.opnd(r.choice(["num", "str", "bool"]), d - 1)
+            if k < 0.8:
+                return "%s %s %s" % (self.opnd("bool", d - 1), r.choice(["and", "or"]), self.opnd("bool", d - 1))
+            if k < 0.9:
+                return "not %s" % self.opnd("bool", d - 1)
+            return self.atom("bool")
+        if ty == "null":
+            return "null"
+        return self.atom(ty)
+
+    def opnd(self, ty, d):
+        e = self.expr(ty, d)
+        return "(%s)" % e if " " in re.sub(r'"[^"]*"', '""', e) else e
+
+    def recv(self, ty, d):
+        e = self.expr(ty, d)
+        if re.fullmatch(r"[A-Za-z_]\w*(\[\d+\])*", e) or re.fullmatch(r'"[^"]*"', e) or re.fullmatch(r"\d+\.\d+", e):
+            return e
+        return "(%s)" % e
+
+    def declare(self, name, ty):
+        sc = self.scopes[-1]
+        for i, v in enumerate(sc):
+            if v[0] == name:
+                sc[i] = (name, ty)
+                return
+        sc.append((name, ty))
+
+    def stmts(self, n, ind, in_fn=None, in_loop=False):
+        r = self.r
+        pad = "  " * ind
+        out = []
+        for _ in range(n):
+            k = r.random()
+            ty = r.choice(["num", "num", "str", "bool", "arrnum", "arrstr", "null"])
+            if k < 0.3:
+                name = self.fresh()
+                while any(f[0] == name for f in self.fns):
+                    name = self.fresh(0)
+                e = self.expr(ty, 2)
+                out.append("%smake %s get %s" % (pad, name, e))
+                self.declare(name, ty)
+            elif k < 0.42:
+                cands = [v for t in ("num", "str", "bool") for v in self.vars(t) if not v[0].startswith("i_")]
+                if cands:
+                    v = r.choice(cands)
+                    out.append("%s%s get %s" % (pad, v[0], self.expr(v[1], 2)))
+            elif k < 0.55:
+                out.append("%sshout(%s)" % (pad, self.expr(ty if ty != "null" else "str", 2)))
+            elif k < 0.63:
+                arrs = self.vars("arrnum") + self.vars("arrstr")
+                if arrs:
+                    a = r.choice(arrs)
+                    el = a[1][3:]
+                    out.append(r.choice([
+                        "%s%s.push(%s)" % (pad, a[0], self.expr(el, 1)),
+                        "%s%s[0] get %s" % (pad, a[0], self.expr(el, 1)),
+                        "%s%s.reverse()" % (pad, a[0]),
+                        "%sshout(%s.pop())" % (pad, a[0]),
+                        "%sshout(%s[%s.len() minus 1] %s)" % (pad, a[0], a[0], "add 1" if el == "num" else 'add "!"'),
+                    ]))
+            elif k < 0.75 and ind < 3:
+                out.append("%sif to say (%s) start" % (pad, self.expr(r.choice(["bool", "bool", "null"]), 2)))
+                self.scopes.append([])
+                out += self.stmts(r.randint(1, 3), ind + 1, in_fn, in_loop)
+                self.scopes.pop()
+                out.append("%send" % pad)
+                if r.random() < 0.4:
+                    out.append("%sif not so start" % pad)
+                    self.scopes.append([])
+                    out += self.stmts(r.randint(1, 2), ind + 1, in_fn, in_loop)
+                    self.scopes.pop()
+                    out.append("%send" % pad)
+            elif k < 0.84 and ind < 3:
+                self.k += 1
+                i = "i_%d" % self.k
+                out.append("%smake %s get 0" % (pad, i))
+                self.declare(i, "num")
+                out.append("%sjasi (%s small pass %d) start" % (pad, i, r.randint(1, 3)))
+                out.append("%s  %s get %s add 1" % (pad, i, i))
+                self.scopes.append([])
+                if r.random() < 0.5:
+                    out.append("%s  if to say (%s) start %s end" % (pad, self.expr("bool", 1), r.choice(["comot", "next"])))
+                out += self.stmts(r.randint(1, 3), ind + 1, in_fn, True)
+                self.scopes.pop()
+                out.append("%send" % pad)
+            elif k < 0.9 and in_fn is not None:
+                rty = in_fn
+                out.append("%sif to say (%s) start return %s end" % (pad, self.expr("bool", 1),
+                                                                   self.expr(rty, 2) if rty != "none" else ""))
+            elif k < 0.95 and in_loop:
+                out.append("%sif to say (%s) start %s end" % (pad, self.expr("bool", 1), r.choice(["comot", "next"])))
+            else:
+                out.append("%sshout(%s)" % (pad, self.expr("str", 2)))
+        return out
+
+    def function(self, ind):
+        r = self.r
+        pad = "  " * ind
+        name = "f%d" % (len(self.fns) + 1)
+        ptys = [r.choice(["num", "num", "str", "bool", "arrnum"]) for _ in range(r.randint(0, 3))]
+        rty = r.choice(["num", "num", "str", "bool", "arrnum", "none"])
+        # parameter names are often names of outer variables of another type
+        params = []
+        for t in ptys:
+            p = self.fresh(0.7)
+            while p in params:
+                p = self.fresh(0)
+            params.append(p)
+        saved = self.scopes
+        outer = [v for sc in saved for v in sc]
+        self.scopes = [list(outer)] if r.random() < 0.6 else [[]]
+        self.scopes.append([(p, t) for p, t in zip(params, ptys)])
+        self.scopes.append([])
+        body = self.stmts(r.randint(1, 4), ind + 1, in_fn=rty)
+        if rty != "none":
+            # often return a bare local or parameter (the shape whose type the checker must not guess)
+            cands = [v for v in self.scopes[-1] + self.scopes[-2] if v[1] == rty]
+            if cands and r.random() < 0.7:
+                body.append("%s  return %s" % (pad, r.choice(cands)[0]))
+            else:
+                body.append("%s  return %s" % (pad, self.expr(rty, 2)))
+        self.scopes = saved
+        self.fns.append((name, ptys, rty))
+        return ["%sdo %s(%s) start" % (pad, name, ", ".join(params))] + body + ["%send" % pad]
+
+    def program(self):
+        r = self.r
+        lines = self.stmts(r.randint(1, 4), 0)
+        nested = r.random() < 0.5
+        if nested:
+            lines.append("if to say (true) start")
+            self.scopes.append([])
+        ind = 1 if nested else 0
+        for _ in range(r.randint(1, 3)):
+            lines += self.function(ind)
+            lines += self.stmts(r.randint(1, 3), ind)
+            f = self.fns[-1]
+            call = "%s(%s)" % (f[0], ", ".join(self.expr(t, 1) for t in f[1]))
+            pad = "  " * ind
+            use = {"num": "shout(%s minus 1)", "str": "shout(%s.len())", "bool": "shout(not %s)",
+                   "arrnum": "shout(%s.len())", "none": "%s"}[f[2]]
+            lines.append(pad + use % call)
+            if f[2] == "num":
+                lines.append(pad + "shout(%s times 2 add %s)" % (call, self.expr("num", 1)))
+            if f[2] == "str":
+                lines.append(pad + "shout(%s add \"!\")" % call)
+            if f[2] == "bool":
+                lines.append(pad + "if to say (%s) start shout(1) end" % call)
+        if nested:
+            self.scopes.pop()
+            lines.append("end")
+        return "\n".join(lines) + "\n"
+
+
+ACCEPT_CORPUS = [
+    ("return-type-inferred-from-enclosing-scope",
+     'make s get "a"\nif to say (true) start\n  do f() start\n    make s get 1\n    return s\n  end\n  shout(f() minus 1)\nend\n'),
+    ("return-type-inferred-from-enclosing-scope",
+     'make p get "x"\nstart\n  do g(p) start\n    return p\n  end\n  shout(g(2) times 3)\nend\n'),
+    ("return-type-inferred-from-enclosing-scope",
+     'do g() start\n  return "s"\nend\ndo f() start\n  do g() start\n    return 1\n  end\n  return g()\nend\nshout(f() minus 1)\nshout(g())\n'),
+    ("return-type-inferred-from-enclosing-scope",
+     'make v get true\nstart\n  make v get 2\n  do f() start\n    return v\n  end\n  shout(f() minus 1)\nend\nshout(v)\n'),
+    ("add-of-two-dynamic-operands", 'do h(p) start\n  return p add p minus 1\nend\nshout(h(2))\n'),
+    ("unary-on-dynamic-rejected", 'do f(p) start\n  return minus p add 1\nend\nshout(f(1))\n'),
+    ("null-comparison", 'make foo get null\nshout(foo na 0)\nshout(foo na "")\nshout(foo na false)\nif to say (not foo) start shout("x") end\n'),
+    ("forward-reference", 'shout(double(21))\ndo double(n) start\n  return n times 2\nend\n'),
+    ("method-on-parameter", 'do f(s, a) start\n  a.push(s.len())\n  return a.join(s.trim())\nend\nshout(f(" x ", [1]))\n'),
+]
+
+
+def rename_function_locals(src):
+    """appends a suffix to every parameter and every `make` name that occurs inside a `do ... end`
+    body, consistently inside that function text (used only to classify a rejection)"""
+    lines = src.split("\n")
+    out, depth, fn_depth, names = [], 0, None, set()
+    for ln in lines:
+        code = ln
+        m = re.match(r"\s*do\s+\w+\s*\(([^)]*)\)\s*start", code)
+        if m and fn_depth is None:
+            fn_depth = depth
+            names = set(x.strip() for x in m.group(1).split(",") if x.strip())
+        if fn_depth is not None:
+            for mm in re.finditer(r"\bmake\s+([A-Za-z_]\w*)", code):
+                names.add(mm.group(1))
+        opens = len(re.findall(r"\bstart\b", code))
+        closes = len(re.findall(r"\bend\b", code))
+        if fn_depth is not None:
+            def sub(mo):
+                w = mo.group(0)
+                return w + "_q" if w in names else w
+            parts = re.split(r'("(?:[^"\\]|\\.)*")', code)
+            for i in range(0, len(parts), 2):
+                parts[i] = re.sub(r"[A-Za-z_]\w*", sub, parts[i])
+            for i in range(1, len(parts), 2):
+                parts[i] = re.sub(r"\{\s*([A-Za-z_]\w*)\s*\}", lambda mo: "{%s}" % (mo.group(1) + "_q" if mo.group(1) in names else mo.group(1)), parts[i])
+            code = "".join(parts)
+        depth += opens - closes
+        if fn_depth is not None and depth <= fn_depth:
+            fn_depth, names = None, set()
+        out.append(code)
+    return "\n".join(out)
+
+
+def accept_eval(env, name, items, spec=False):
+    """items: [(id, src)] -> dict id -> (parse_errors, accepted, simply_typed, diags, spec_ending)
+    spec_ending: how Spec.run_spec ends on the dumped AST (names only; computed for every program
+    that parses when spec=True, also for the rejected ones)"""
+    recs = langrun.run_impl(env, name, items, cfgs=[])
+    mlines = []
+    for cid, _ in items:
+        rec = recs.get(cid)
+        if rec and rec.get("ast"):
+            mlines += ["case %s" % cid, rec["ast"]]
+    st = {}
+    if mlines:
+        inp = os.path.join(env.work, name + ".st.in")
+        outp = os.path.join(env.work, name + ".st.out")
+        open(inp, "w").write("\n".join(mlines) + "\n")
+        rc, out = common.sh([common.NSMODEL, "simpletypes", inp, outp], timeout=900)
+        if rc != 0:
+            raise RuntimeError("nsmodel simpletypes failed: %s" % out[-400:])
+        for l in open(outp).read().splitlines():
+            t = l.split()
+            st[t[1]] = t[2]
+    ends = {}
+    if spec:
+        fake = {}
+        for cid, _ in items:
+            rec = recs.get(cid)
+            if rec and rec.get("ast"):
+                fake[cid] = dict(rec, plan="plan none")
+        m = run_model_safe(env, name + ".sp", fake, [cid for cid, _ in items if cid in fake])
+        for cid, mr in m.items():
+            if "s" in mr["runs"]:
+                ends[cid] = mr["runs"]["s"][0]
+    out = {}
+    for cid, _ in items:
+        rec = recs.get(cid) or {}
+        out[cid] = (rec.get("parse"), rec.get("accepted"), st.get(cid), rec.get("diags", []), ends.get(cid))
+    return out
+
+
+def spec_valid(ending):
+    """the documented semantics runs the program without a type error (and without getting stuck)"""
+    return ending is not None and (ending == "ok" or (ending.startswith("err:") and ending != "err:Type_mismatch"))
+
+
+def error_signature(diags):
+    sig = []
+    for d in diags:
+        t = d.split()
+        if len(t) >= 4 and t[1] == "error":
+            try:
+                sig.append(bytes.fromhex(t[3]).decode("utf-8", "replace"))
+            except ValueError:
+                sig.append(t[3])
+    return sig
+
+
+def stream_accept(env, res):
+    r = env.rng
+    quick = env.tier == "quick"
+    items = []
+    for j, (key, src) in enumerate(ACCEPT_CORPUS):
+        items.append(("k%d" % j, src))
+    n = 700 if quick else 30000
+    for i in range(n):
+        items.append(("a%d" % i, TGen(r).program()))
+    m = 300 if quick else 10000
+    for i in range(m):
+        src, _ = langgen.generate(r, langgen.Opts(p_trap=0.0, p_dead=0.0))
+        items.append(("l%d" % i, src))
+    ev = accept_eval(env, "acc", items)
+    st = {"cases": len(items), "simply_typed": 0, "not_simply_typed": 0, "accepted_and_typed": 0, "rejected_but_typed": 0,
+          "rejected_typed_and_runs_under_spec": 0, "parse_errors": 0,
+          "typed_by_generator": {"corpus": 0, "tgen": 0, "langgen": 0}}
+    nontrivial = set()
+    cand = []
+    for cid, src in items:
+        pe, acc, sty, diags, _ = ev[cid]
+        res["evaluations"] += 1
+        if pe:
+            st["parse_errors"] += 1
+            if cid[0] in "ka":
+                res["failures"].append({"key": "generated-program-does-not-parse:" + common.chash(src), "stream": "accept",
+                                        "case": src, "observed": error_signature(diags)[:3]})
+            continue
+        if sty != "1":
+            st["not_simply_typed"] += 1
+            continue
+        st["simply_typed"] += 1
+        st["typed_by_generator"][{"k": "corpus", "a": "tgen", "l": "langgen"}[cid[0]]] += 1
+        if acc:
+            st["accepted_and_typed"] += 1
+            if "do " in src:
+                nontrivial.add(common.chash(src))
+        else:
+            st["rejected_but_typed"] += 1
+            cand.append((cid, src))
+    # a rejection counts when the program also runs under the documented semantics without a type error
+    bad = []
+    if cand:
+        ev2 = accept_eval(env, "acc2", cand, spec=True)
+        for cid, src in cand:
+            if spec_valid(ev2[cid][4]):
+                st["rejected_typed_and_runs_under_spec"] += 1
+                bad.append((cid, src, error_signature(ev2[cid][3])))
+    # classify and shrink the rejections (a few per signature)
+    seen = {}
+    shrunk = 0
+    for cid, src, sig in bad:
+        if cid.startswith("k"):
+            res["failures"].append({"key": ACCEPT_CORPUS[int(cid[1:])][0], "stream": "accept", "case": src, "observed": sig[:3]})
+            continue
+        k0 = "|".join(sig[:1])
+        seen[k0] = seen.get(k0, 0) + 1
+        # is the rejection caused by a name of the function body that also exists outside it?
+        e = accept_eval(env, "ren", [("s", rename_function_locals(src))])["s"]
+        capture = e[0] == 0 and e[1] is True
+        small_src = src
+        if seen[k0] <= 2 and shrunk < (3 if quick else 12):
+            shrunk += 1
+            lines = src.rstrip("\n").split("\n")
+
+            def still(cand_lines):
+                ev3 = accept_eval(env, "shr", [("s", "\n".join(cand_lines) + "\n")], spec=True)["s"]
+                return ev3[0] == 0 and ev3[1] is False and ev3[2] == "1" and spec_valid(ev3[4])
+            if len(lines) <= 45 and still(lines):
+                small_src = "\n".join(common.ddmin_lines(lines, still, keep_head=0)) + "\n"
+        key = "return-type-inferred-from-enclosing-scope" if capture else "valid-program-rejected:" + common.chash(small_src)
+        res["failures"].append({"key": key, "stream": "accept", "case": small_src, "observed": sig[:3],
+                                "original": src if len(src) < 1500 else src[:1500]})
+    res["distinct_nontrivial"] += len(nontrivial)
+    res["extra"]["accept"] = dict(st, rejection_signatures=seen, distinct_typed_programs_with_functions=len(nontrivial))
+    res["samples"].append({"stream": "accept", "case": items[len(ACCEPT_CORPUS)][1][:600]})
